@@ -85,13 +85,18 @@ type vfileInfo struct {
 }
 
 type vfile struct {
-	path string
-	off  int
+	path     string
+	off      int
+	writable bool // opened through os.OpenFile with O_WRONLY / O_RDWR
 }
 
 type vyamlDecoder struct {
 	path string
 	next int
+	// a file holding plain text (no documents registered with verifYamlDoc): parsed once, at the first Decode
+	parsed  bool
+	docs    []*value
+	tailErr string
 }
 
 func (v *venv) isDir(p string) bool {
@@ -366,7 +371,19 @@ func init() {
 		}
 		docs, registered := fr.i.ex.yamlDocs[d.path]
 		if !registered {
-			panic(engineError{"yaml model: no documents registered for " + d.path + " (verifYamlDoc)"})
+			// plain text: the real yaml.v3 parser (native oracle) yields the node tree of every document
+			if !d.parsed {
+				content, ok := fr.i.ex.env().files[d.path]
+				if !ok {
+					panic(engineError{"yaml model: no documents registered for " + d.path + " (verifYamlDoc) and no such file"})
+				}
+				d.docs, d.tailErr = yamlTextDocs(fr, fr.i.ex.concStr(strOfLoose(content)))
+				d.parsed = true
+			}
+			docs = d.docs
+			if d.next >= len(docs) && d.tailErr != "" {
+				return mkError(fr, d.tailErr)
+			}
 		}
 		if d.next >= len(docs) {
 			return fr.i.sentinel("io.EOF", "EOF")
